@@ -178,7 +178,18 @@ func typeFuncName(f *types.Func) string {
 			}
 		}
 		if old, ok := renamedFuncs[dir+":"+recv+"."+fname]; ok {
-			fname = old
+			pk := ""
+			if f.Pkg() != nil {
+				pk = f.Pkg().Name() + "."
+			}
+			switch {
+			case old.recv == "":
+				return pk + old.name
+			case old.ptr:
+				return pk + "(*" + old.recv + ")." + old.name
+			default:
+				return pk + old.recv + "." + old.name
+			}
 		}
 	}
 	pk := ""
